@@ -512,8 +512,15 @@ fn gen_sql_expr(rng: &mut Rng, depth: u32) -> E {
             E::Map((0..n).map(|_| (gen::lit(hostile_string(rng).as_str()), gen_sql_expr(rng, d))).collect())
         }
         13 | 14 => {
+            // one argument is a cast, none is a typed NULL, more are an ordinary call: every argument must survive
             let t = *rng.pick(&["int", "uint", "double", "float", "string", "bool", "timestamp", "duration"]);
-            gen::call(t, vec![gen_sql_expr(rng, d)])
+            let n = match rng.below(8) {
+                0 => 0,
+                1 => 2,
+                2 => 3,
+                _ => 1,
+            };
+            gen::call(t, (0..n).map(|_| gen_sql_expr(rng, d)).collect())
         }
         _ => E::Paren(Box::new(gen_sql_expr(rng, d))),
     }
